@@ -16,6 +16,7 @@ are re-evaluated on the overlay; a new violation or a new analysis error is repo
     comp-loop   v = [E for x in S if c]  ->  v = []; for x in S: if c: v.append(E)     (one generator, a plain name on the left)
     else-return if c: ..; return A  else: B  ->  if c: ..; return A  B                 (the else of a branch that always returns is hoisted)
     dict-call   dict(a=x, b=y)  ->  {"a": x, "b": y}
+    dict-display {"a": x, "b": y}  ->  dict(a=x, b=y)                                  (every key a string that is an identifier)
     chain-split v = a.f(..).g(..)  ->  chain__ = a.f(..); v = chain__.g(..)            (an assignment whose value is a method on a call)
 
     python3-vt tools/shape_probe.py swap-eq C07
@@ -26,7 +27,7 @@ sys.path.insert(0, str(pathlib.Path(__file__).resolve().parent.parent))
 sys.path.insert(0, str(pathlib.Path(__file__).resolve().parent))
 from alpha_rename import consulted, ROOT, ALL      # noqa: E402
 
-MODES = ["swap-eq", "flip-if", "flip-ifexp", "kw-order", "split-tuple", "named-ret", "and-chain", "comp-loop", "else-return", "dict-call", "chain-split"]
+MODES = ["swap-eq", "flip-if", "flip-ifexp", "kw-order", "split-tuple", "named-ret", "and-chain", "comp-loop", "else-return", "dict-call", "dict-display", "chain-split"]
 
 
 def _pure(e):
@@ -69,6 +70,15 @@ class _T(ast.NodeTransformer):
         if self.mode == "flip-ifexp":
             self.n += 1
             return ast.IfExp(test=_neg(n.test), body=n.orelse, orelse=n.body)
+        return n
+
+    def visit_Dict(self, n):
+        n = self.generic_visit(n)
+        import keyword
+        if self.mode == "dict-display" and n.keys and all(isinstance(k, ast.Constant) and isinstance(k.value, str) and k.value.isidentifier() and
+                                                          not keyword.iskeyword(k.value) for k in n.keys) and len({k.value for k in n.keys}) == len(n.keys):
+            self.n += 1
+            return ast.Call(func=ast.Name(id="dict", ctx=ast.Load()), args=[], keywords=[ast.keyword(arg=k.value, value=v) for k, v in zip(n.keys, n.values)])
         return n
 
     def visit_Call(self, n):
